@@ -7,9 +7,9 @@ wt=$1; prop=$2; tier=${3:-quick}
 cd $wt || exit 2
 git apply -R SEEDED/patch.diff 2>/dev/null   # to clean tree (if applied)
 if [ -n "$(git status --porcelain --untracked-files=no)" ]; then echo "tree not clean after reverting patch.diff:"; git status --short | head; fi
-timeout 120 /venv/bin/python SEEDED/demo.py > /tmp/wt/demo_without.txt 2>&1; echo "demo WITHOUT change: exit=$? $(tail -1 /tmp/wt/demo_without.txt | cut -c1-200)"
+timeout 120 /venv/bin/python SEEDED/demo.py > /tmp/wt/demo_without_$(basename $wt).txt 2>&1; echo "demo WITHOUT change: exit=$? $(tail -1 /tmp/wt/demo_without_$(basename $wt).txt | cut -c1-200)"
 git apply SEEDED/patch.diff || { echo "patch does not apply to the clean tree"; exit 2; }
-timeout 120 /venv/bin/python SEEDED/demo.py > /tmp/wt/demo_with.txt 2>&1; echo "demo WITH change:    exit=$? $(tail -1 /tmp/wt/demo_with.txt | cut -c1-200)"
+timeout 120 /venv/bin/python SEEDED/demo.py > /tmp/wt/demo_with_$(basename $wt).txt 2>&1; echo "demo WITH change:    exit=$? $(tail -1 /tmp/wt/demo_with_$(basename $wt).txt | cut -c1-200)"
 echo "tests with change: $(timeout 900 /venv/bin/python -m pytest -q -p no:cacheprovider --timeout=900 --continue-on-collection-errors tests/common tests/test_profiling.py 2>&1 | tail -1)"
 git diff --stat -- edb | tail -3
 cd /verif
